@@ -110,7 +110,7 @@ def postgres : Tbl where
   rbp o := if isBetween o then 14         -- lower bound: a b_expr (stricter than gram.y: see DESIGN)
            else 2 * pgLevel o + 1 + (if o == 25 then 1 else 0)
   nonassoc o := isIs o || isCmp o || isIn o || isLike o || isBetween o || o == 30 || o == 31
-  mix := mixCommon
+  mix o := if o == 30 || o == 31 then some 26 else mixCommon o   -- ILIKE .. ESCAPE
   mand := isBetween
   rbp2 o := 13                             -- upper bound / escape: %prec BETWEEN / LIKE
   nbp := 7
